@@ -145,6 +145,7 @@ fn gen_index_long(ctx: &mut Ctx) -> String {
     let hp = |t: &Tuple, cols: &[usize]| probe.verif_hash_pair(&t.from_indices(cols));
     let mut stored: Vec<Tuple> = vec![];
     let mut items = vec![];
+    let mut distinct = 0usize;
     for i in 0..n {
         let dup = !stored.is_empty() && ctx.chance(1, 12);
         let t = if dup { ctx.pick(&stored).clone() } else { Tuple::new(vec![Value::Int64(1000 + i as i64), Value::Int64(ctx.range(0, 3))]) };
@@ -152,8 +153,12 @@ fn gen_index_long(ctx: &mut Ctx) -> String {
         items.push(format!("ins {} {} {}", tuple_to_wire(&t), a, b));
         let k = t.from_indices(&cols); let (ka, kb) = probe.verif_hash_pair(&k); let kw = tuple_to_wire(&k);
         stored.push(t);
-        // look the key up straight away (every insert near a power-of-two multiple of the sizing, else 1 in 6)
-        if i % 100 >= 97 || i % 100 <= 2 || ctx.chance(1, 6) {
+        // look the key up straight away: always while the number of distinct keys is within 3 of a multiple of
+        // the filter's design load max(expected,100) (where sizing / rebuild thresholds sit), else 1 in 6
+        if !dup { distinct += 1; }
+        let cap = expected.max(100);
+        if distinct % cap >= cap - 3 || distinct % cap <= 3 || ctx.chance(1, 6) {
+            ctx.count("index.long-stream.lookup-right-after-insert");
             items.push(match ctx.below(3) { 0 => format!("mc {kw} {ka} {kb}"), 1 => format!("getb {kw} {ka} {kb}"), _ => format!("probe {kw} {ka} {kb}") });
         }
         if ctx.chance(1, 40) && stored.len() > 3 { let j = ctx.below(stored.len()); let r = stored.remove(j); items.push(format!("rem {}", tuple_to_wire(&r))); }
@@ -164,7 +169,7 @@ fn gen_index_long(ctx: &mut Ctx) -> String {
             items.push(format!("getb {} {} {}", tuple_to_wire(&k), ka, kb));
         }
     }
-    ctx.count("index.long-stream");
+    ctx.count("index.long-stream"); ctx.add("index.long-stream.inserts", n as u64);
     format!("c36.index 0 {} | {}", expected, items.join(" ; "))
 }
 
